@@ -111,7 +111,8 @@ func addFfiToABI(c *Ctx, name, schema string, tag string) {
 
 func init() {
 	register(&Suite{
-		Prop: "C20",
+		Prop:     "C20",
+		Parallel: true,
 		Gen: func(c *Ctx) {
 			r := c.R
 			n := 250
@@ -145,6 +146,34 @@ func init() {
 						}
 					}
 					t.Name = "nested"
+					ts = append(ts, t)
+				}
+				// a tuple (at any depth, under any array dimensions) in which exactly one member has no name
+				if i%4 == 1 {
+					k := 1 + r.Intn(3)
+					tu := &absTy{Kind: "tuple"}
+					for q := 0; q < k; q++ {
+						m := genTy(r, 1, o)
+						if m.hasFixed() {
+							m = &absTy{Kind: "uint", M: 256}
+						}
+						m.Name = fmt.Sprintf("m%d", q)
+						tu.Comps = append(tu.Comps, m)
+					}
+					tu.Comps[r.Intn(k)].Name = ""
+					var t *absTy = tu
+					for d := r.Intn(3); d > 0; d-- {
+						if r.Bool() {
+							t = &absTy{Kind: "darr", Child: t}
+						} else {
+							t = &absTy{Kind: "farr", Child: t, Len: 1 + r.Intn(3)}
+						}
+					}
+					if r.Bool() {
+						t = &absTy{Kind: "tuple", Comps: []*absTy{{Kind: "bool", Name: "flag"}, t}}
+						t.Comps[1].Name = "inner"
+					}
+					t.Name = "oneUnnamed"
 					ts = append(ts, t)
 				}
 				typ := Pick(r, []string{"function", "event", "error"})
